@@ -28,7 +28,7 @@ COMPOSE_MIN_THEOREMS = 11
 EXTRA_MODULES = [('MpVerif.C01.PropsCompose', 'MpVerif/C01/PropsCompose.lean', COMPOSE_MIN_THEOREMS),
                  ('MpVerif.C01.PropsCtxGen', 'MpVerif/C01/PropsCtxGen.lean', 11),
                  ('MpVerif.C01.PropsObjective', 'MpVerif/C01/PropsObjective.lean', 9),
-                 ('MpVerif.C01.PropsGenTie', 'MpVerif/C01/PropsGenTie.lean', 27),
+                 ('MpVerif.C01.PropsGenTie', 'MpVerif/C01/PropsGenTie.lean', 31),
                  # round 5: the reference converter is correct (C01_convert_equiv / _objective)
                  ('MpVerif.C01.PropsConvert', 'MpVerif/C01/PropsConvert.lean', 5),
                  # statement audit (round 4): non-vacuity instances only, no C01_ theorems of its own
@@ -710,12 +710,6 @@ def check_case(ck, exe, drv, stub, m, opts, stats, case_id):
                                 'only_impl': [c for c in consB if c not in rest][:8], 'only_model': [c for c in rest if c not in consB][:8]})
             continue
         # ---- regular constraints
-        if any('args' in e['data'] and isinstance(e['data']['args'], list) and len(set(e['data']['args'])) != len(e['data']['args'])
-               for e in mine):
-            # the same variable twice among the arguments (e.g. two constant-true comparisons mapped to one fixed
-            # variable): the delivered rows have their duplicate terms merged; outside the gadget model
-            stats['unmodelled'][tn + '(duplicate-args)'] = stats['unmodelled'].get(tn + '(duplicate-args)', 0) + 1
-            continue
         result = None
         tried = []
         for p in range(len(vsA), n_orig - 1, -1):
@@ -984,6 +978,115 @@ def condeq_nonint_cases(ck, exe, wd, stats):
     return findings
 
 
+def uenc_cases(ck, exe, drv, wd, stats, rng, ncases):
+    """CreateUnaryEncoding vs the Lean `gUnaryEncFull` (rows of `gUnaryEnc`): one integer variable with several reified
+    comparisons `x == k` in mixed context (so that the converter chooses the unary encoding), comparison results natively
+    accepted; the two encoding rows and the fresh flag variables are compared exactly."""
+    dis = []
+    for i in range(ncases):
+        m = Model()
+        lo = rng.rint(-2, 2)
+        hi = lo + rng.rint(1, 4)
+        x = m.var(lo, hi, True)
+        nb = rng.rint(2, min(3, hi - lo + 1))
+        vals = []
+        while len(vals) < nb:
+            k = rng.rint(lo, hi)
+            if k not in vals:
+                vals.append(k)
+        bsv = [m.var(0, 1, True) for _ in vals]
+        for bv, k in zip(bsv, vals):
+            m.lcon(('iff', ('eq', ('v', bv), ('n', 1)), ('eq', ('v', x), ('n', F(k)))))
+        opts = ['cvt:cmp:eps=0.0001220703125']
+        if rng.chance(1, 3):
+            opts.append('cvt:uenc:negctx:max=0')
+        stub = os.path.join(wd, 'ue%d' % (i % 4))
+        m.write(stub)
+        r = recsolver.run(exe, stub, options=opts, accept=BASE_ACCEPT)
+        stats['runs'] += 1
+        if r['rc'] != 0 or not any(e.get('ev') == 'end' for e in r['log']):
+            continue
+        vs = vars_of(r['log'])
+        cons = [e for e in r['log'] if e.get('ev') == 'con']
+        xv = m.pos[x]
+        taken = {}
+        for e in cons:
+            if e['type'] == 'CondLinConEQ' and e['data']['con']['body']['v'] == [xv]:
+                taken[int(nb_(e['data']['con']['lb']))] = e['data']['res']
+        if len(taken) < 2:
+            # binary variable: `x == 0/1` is answered by the preprocessing (the variable or its complement is reused), no encoding
+            stats['uenc_skipped'] = stats.get('uenc_skipped', 0) + 1
+            continue
+        rows = sorted(con_s(e) for e in cons if e['type'] == 'LinConEQ')
+        nfresh = (hi - lo + 1) - len(taken)
+        n0 = len(vs) - nfresh
+        ans = parse_model_out(drv.ask('uenc v=%d n=%d taken=%s %s' % (xv, n0, ','.join('%d:%d' % kv for kv in sorted(taken.items())), bnds_arg(vs[:n0]))))
+        stats['uenc_cases'] = stats.get('uenc_cases', 0) + 1
+        key = 'uenc - ' + (ans['kind'] if ans['kind'] != 'ok' else 'aux%d/rows%d' % (len(ans['vars']), len(ans['cons'])))
+        MODEL_ARMS[key] = MODEL_ARMS.get(key, 0) + 1
+        want_rows = sorted(ans.get('cons', []))
+        want_vars = [vi_s(v) for v in vs[:n0]] + ans.get('vars', [])
+        if ans['kind'] != 'ok' or rows != want_rows or [vi_s(v) for v in vs] != want_vars:
+            dis.append({'type': 'UnaryEncoding', 'case': 'uenc#%d' % i, 'why': 'unary encoding rows / flag variables differ from the Lean gUnaryEncFull',
+                        'ops': [], 'only_impl': [c for c in rows if c not in want_rows][:6], 'only_model': [c for c in want_rows if c not in rows][:6],
+                        'nl': open(stub + '.nl').read(), 'options': opts})
+    return dis
+
+
+def nb_(s):
+    v = nb(s)
+    return v
+
+
+def mulbin_cases(ck, exe, drv, wd, stats, rng, ncases):
+    """LinearizeProductWithBinaryVar vs the Lean `gMulBinTerm`: c*(b*x) with a binary factor, quadratic rows and the quadratic
+    functional constraint not accepted, IfThen accepted: the IfThen term (its result variable, arguments, the fixed-zero
+    variable, bounds and type of the result) is compared exactly."""
+    dis = []
+    acc = [t for t in BASE_ACCEPT if not t.startswith('QuadCon') and t != 'QuadraticFunctionalConstraint']
+    for i in range(ncases):
+        m = Model()
+        bvar = m.var(0, 1, True)
+        xb = rand_bounds(rng, rng.choice(['int', 'cont', 'cont', 'bin']))
+        xvar = m.var(*xb)
+        y = m.var(*rand_bounds(rng, 'cont'))
+        c = F(rng.choice([1, -1, 2, 3, -2]), rng.choice([1, 1, 2]))
+        prod = ('*', ('v', bvar), ('v', xvar)) if rng.chance(1, 2) else ('*', ('v', xvar), ('v', bvar))
+        nl = prod if c == 1 else ('*', ('n', c), prod)
+        k0 = F(rng.rint(-4, 8))
+        how = rng.below(3)
+        if how == 0:
+            m.con(None, k0, lin={y: 1}, nl=nl)
+        elif how == 1:
+            m.con(k0, None, lin={y: 1}, nl=nl)
+        else:
+            m.con(k0, k0 + 3, lin={y: 1}, nl=nl)
+        stub = os.path.join(wd, 'mb%d' % (i % 4))
+        m.write(stub)
+        r = recsolver.run(exe, stub, options=['cvt:cmp:eps=0.0001220703125'], accept=acc)
+        stats['runs'] += 1
+        if r['rc'] != 0 or not any(e.get('ev') == 'end' for e in r['log']):
+            continue
+        vs = vars_of(r['log'])
+        its = [e for e in r['log'] if e.get('ev') == 'con' and e['type'] == 'IfThenConstraint']
+        stats['mulbin_cases'] = stats.get('mulbin_cases', 0) + 1
+        if len(its) != 1:
+            dis.append({'type': 'MulBinary', 'case': 'mulbin#%d' % i, 'why': '%d IfThen terms delivered for one binary product' % len(its),
+                        'ops': [], 'nl': open(stub + '.nl').read(), 'options': []})
+            continue
+        d = its[0]['data']
+        res, (b0, o0, z0) = d['res'], d['args']
+        ans = parse_model_out(drv.ask('mulbin b=%d o=%d zero=%d n=%d %s' % (b0, o0, z0, res, bnds_arg(vs[:res]))))
+        key = 'mulbin - ' + (ans['kind'] if ans['kind'] != 'ok' else 'aux%d/rows%d' % (len(ans['vars']), len(ans['cons'])))
+        MODEL_ARMS[key] = MODEL_ARMS.get(key, 0) + 1
+        okz = vs[z0][0] == 0 and vs[z0][1] == 0
+        if ans['kind'] != 'ok' or ans['cons'] != [con_s(its[0])] or ans['vars'] != [vi_s(vs[res])] or not okz:
+            dis.append({'type': 'MulBinary', 'case': 'mulbin#%d' % i, 'why': 'IfThen term of the binary product differs from the Lean gMulBinTerm',
+                        'ops': [], 'only_impl': [con_s(its[0]), vi_s(vs[res])], 'only_model': ans.get('cons', []) + ans.get('vars', []),
+                        'nl': open(stub + '.nl').read(), 'options': []})
+    return dis
+
+
 def report(ck, res):
     """turn the result of run_gadgets into verdicts"""
     pid = getattr(ck, 'pid_real', ck.pid)
@@ -1019,6 +1122,13 @@ def report(ck, res):
                          {'stream': 'c01_gadgets', 'case': d['case'], 'seed': d.get('seed'), 'ops': d.get('ops'), 'nl': d.get('nl'),
                           'options': d.get('options'), 'only_impl': d.get('only_impl'), 'only_model': d.get('only_model')},
                          found_input=False)
+    rcv = res.get('refconv') or {}
+    ck.cov['reference_converter_tie'] = {k: v for k, v in rcv.items() if k not in ('violations',)}
+    for sig, what, ex in rcv.get('violations', []):
+        rep = {'stream': 'c01_refconv', 'how': 'pipe the op line to lean/.lake/build/bin/drv_c01; the same model is written by '
+               'checks/c01_refconv.py build() and run through recsolver with RECSOLVER_ACCEPT = NATIVE|LINEAR (flat model: FLAT)'}
+        rep.update(ex)
+        ck.add_violation(sig, what, rep, found_input=sig.startswith('refconv-property'))
     if not res.get('proof_ok', True):
         for fdecl in res.get('failing', []):
             ck.add_violation('obligation:%s' % fdecl, 'proof obligation no longer checks: %s' % fdecl,
@@ -1222,7 +1332,7 @@ def run_gadgets(ck, n_cases=None, proof=True):
             failing = failing + fail2
         res['proof_ok'], res['failing'] = ok, failing
         if ck.tier == 'thorough' and ok:
-            badm = ck.leanchecker(['MpVerif.C01.Props', 'MpVerif.C01.PropsCompose', 'MpVerif.C01.PropsCtxGen', 'MpVerif.C01.PropsObjective', 'MpVerif.C01.PropsGenTie'])
+            badm = ck.leanchecker(['MpVerif.C01.Props', 'MpVerif.C01.PropsCompose', 'MpVerif.C01.PropsCtxGen', 'MpVerif.C01.PropsObjective', 'MpVerif.C01.PropsGenTie', 'MpVerif.C01.PropsConvert'])
             if badm:
                 res['proof_ok'] = False
                 res['failing'] += ['leanchecker rejected %s' % x for x in badm]
@@ -1254,10 +1364,23 @@ def run_gadgets(ck, n_cases=None, proof=True):
         d2, findings = [{'type': 'ctx', 'why': 'harness exception %r' % (ex,), 'case': 'ctx', 'ops': []}], []
     dis += d2
     try:
+        nue = 24 if ck.tier == 'quick' else 120
+        dis += uenc_cases(ck, exe, drv, wd, stats, rng, nue)
+        dis += mulbin_cases(ck, exe, drv, wd, stats, rng, nue)
+    except Exception as ex:
+        dis.append({'type': 'uenc/mulbin', 'why': 'harness exception %r' % (ex,), 'case': 'uenc/mulbin', 'ops': []})
+    try:
         findings = findings + condeq_nonint_cases(ck, exe, wd, stats)
     except Exception as ex:
         dis.append({'type': 'condeq', 'why': 'harness exception %r' % (ex,), 'case': 'condeq', 'ops': []})
     res['findings'] = findings
+    # round 5: the Lean reference converter `convert` against the real converter on generated models of its fragment
+    try:
+        import c01_refconv
+        nrc = 120 if ck.tier == 'quick' else 1200
+        res['refconv'] = c01_refconv.run_refconv(ck, drv, exe, nrc, ck.seed, wd)
+    except Exception as ex:
+        res['refconv'] = {'harness_exception': repr(ex)[:300], 'violations': [('refconv-harness', 'harness exception %r' % (ex,), {})]}
     drv.close()
     stats['model_arms'] = dict(sorted(MODEL_ARMS.items()))
     res['disagreements'] = dis
@@ -1268,7 +1391,20 @@ def run_gadgets(ck, n_cases=None, proof=True):
            % (stats.get('ctx_cases', 0), stats.get('oracle_points', 0), len([f for f in findings if f.get('kind') != 'condeq'])))
     ck.log('  conditional equality with fractional rhs: %d cases, %d with a point where NL model and delivered model disagree' % (stats.get('condeq_cases', 0), len([f for f in findings if f.get('kind') == 'condeq'])))
     ck.log('  context edges (parent rule vs context stored on the argument definition) checked: %d' % stats.get('ctx_edges', 0))
+    ck.log('  unary-encoding cases compared: %d, binary-product term cases compared: %d' % (stats.get('uenc_cases', 0), stats.get('mulbin_cases', 0)))
     ck.log('  hit: ' + ', '.join('%s:%d' % kv for kv in sorted(stats['hit'].items())))
+    rcv = res.get('refconv') or {}
+    if 'compared' in rcv:
+        ck.log('  reference converter `convert` vs real converter: %d fragment models; %d (model, acceptance set) comparisons not flagged as '
+               'shortcut by the reference: %d agree (%.0f%%; native %s, linear %s; %d delivered rows, %d with auxiliary variables), %d refusals on '
+               'both sides, %d disagreements (%d of them drift: real delivered model passes the exact oracle); flagged as shortcut: %d, '
+               'of which %d agree all the same'
+               % (rcv['models'], rcv['compared'], rcv['agree'], 100.0 * rcv['agree'] / max(1, rcv['compared']),
+                  '%d/%d' % tuple(rcv['by_acc']['native']), '%d/%d' % tuple(rcv['by_acc']['linear']), rcv['rows_compared'], rcv['with_aux_vars'],
+                  rcv['refusal_agree'], rcv['disagree'], rcv['drift'], rcv['shortcut'], rcv['flagged_agree']))
+        ck.log('    definition kinds in compared models: ' + ', '.join('%s:%d' % kv for kv in sorted(rcv['def_kinds'].items())))
+        for k, v in sorted(rcv['classes'].items()):
+            ck.log('    disagreement class %s: %d' % (k, v))
     if stats['unmodelled']:
         ck.log('  unmodelled (preprocessing shortcuts outside the model): ' + ', '.join('%s:%d' % kv for kv in sorted(stats['unmodelled'].items())))
     return res
